@@ -337,3 +337,36 @@ func paramOf(fn *ssa.Function, idx int) *ssa.Parameter {
 	}
 	return fn.Params[idx]
 }
+
+// assign is one value assigned by a store. A store of a phi (the join of "x = a" / "x = b" branches that a
+// helper's several returns leave behind once inlined) stands for one assignment per incoming edge, each made
+// at the end of the corresponding predecessor block.
+type assign struct {
+	Val ssa.Value
+	At  ssa.Instruction // where the assignment is decided (the store itself, or the end of the phi's predecessor)
+	St  *ssa.Store
+}
+
+func expandStores(sts []*ssa.Store) []assign {
+	var out []assign
+	var exp func(st *ssa.Store, v ssa.Value, at ssa.Instruction, depth int)
+	exp = func(st *ssa.Store, v ssa.Value, at ssa.Instruction, depth int) {
+		phi, ok := v.(*ssa.Phi)
+		if !ok || depth > 3 || phi.Block() != at.Block() && !phi.Block().Dominates(at.Block()) {
+			out = append(out, assign{v, at, st})
+			return
+		}
+		for i, e := range phi.Edges {
+			pred := phi.Block().Preds[i]
+			if len(pred.Instrs) == 0 {
+				out = append(out, assign{e, at, st})
+				continue
+			}
+			exp(st, e, pred.Instrs[len(pred.Instrs)-1], depth+1)
+		}
+	}
+	for _, st := range sts {
+		exp(st, st.Val, st, 0)
+	}
+	return out
+}
